@@ -13,7 +13,7 @@ pub const SPEC: Spec = Spec {
     quick_cases: 300_000,
     thorough_cases: 3_000_000,
     fixed: Some(fixed),
-    fuzz: Some(FuzzSpec { target: "c13_bits", prefix: &[], max_len: 512, quick_runs: 50_000, thorough_runs: 2_000_000, jobs: 16 }),
+    fuzz: Some(FuzzSpec { target: "c13_bits", prefix: &[], max_len: 512, quick_runs: 50_000, thorough_runs: 1_000_000, jobs: 16 }),
     ..Spec::base("C13", "Bit streams and natural numbers code exactly", case)
 };
 
